@@ -153,7 +153,8 @@ Definition rewrite_roots (g : graph) (wc : option nat) (c : cmd) : list nat :=
 Definition leaves_wc (c : cmd) (w : nat) : bool :=
   match c with
   | CEdit x => negb (Nat.eqb x w)
-  | CNew _ | CNewBefore _ | CCommit => true
+  | CNew ps => negb (memn w ps)        (* a child of [w] keeps it from being a head *)
+  | CNewBefore _ | CCommit => true
   | _ => false
   end.
 Definition wc_abandoned (r : repo) (ws : N) (c : cmd) (w : nat) : bool :=
@@ -251,7 +252,18 @@ Definition accept_ok (r : repo) (ev : event) : bool :=
      | CObserve => (e_nops ev =? 0)%nat && view_eqb v v' && match e_new ev with [] => true | _ => false end
      | _ => true
      end
-  && seteqn (e_vis_post ev) (vis_list g' v').
+  && seteqn (e_vis_post ev) (vis_list g' v')
+  (* no operation: nothing new, same view *)
+  && (if (e_nops ev =? 0)%nat then view_eqb v v' && match e_new ev with [] => true | _ => false end
+      else true)
+  (* [snapshot_working_copy] / [finish_transaction] leave the invoking workspace on a mutable
+     commit *)
+  && match c with
+     | CWorkspaceAdd | CObserve => true
+     | _ => if (0 <? e_nops ev) then
+              match wc_of v' (e_ws ev) with Some w' => negb (immb g' v' e w') | None => true end
+            else true
+     end.
 
 (** A refused or failed command changes nothing. *)
 Definition unchanged (r : repo) (ev : event) : bool :=
@@ -338,5 +350,6 @@ Definition check_case (c : case) : N :=
     | None => false
     end in
   let p := okb c in
-  verdict corr p (known_class c)
+  (* a case counts as inside the known class only if the model accepts the whole trace *)
+  verdict corr p (known_class c && corr)
           (if p then first_reject (c_init c) (c_events c) 0 else 100).
